@@ -195,6 +195,12 @@ def run(tier):
     for prog, valid in [pv for pv in progs if pv[0][:len(PROBE)] == PROBE][:3] + progs[:3]:
         for (ok, fl, argvv) in SPELL:
             add(prog, valid, fl, ok, rnd.choice(["FILE", "stdin"]), {"c": rnd.choice([4, 8, 16]), "argv_override": argvv})
+    # the NAME of the output: a path longer than one component may be (272 characters, every component legal), blanks, UTF-8 and '%'
+    # characters in it, a leading './' - the file that is written must be exactly the one that was named
+    for prog, valid in progs[:4]:
+        for ok in ("-o", "-P"):
+            for nm in ("long", "blank", "percent", "utf8", "long-component"):  # (no '.' anywhere in the path: asmline refuses -o names with a dot as "having an extension")
+                add(prog, valid, [], ok, rnd.choice(["FILE", "stdin"]), {"c": 8, "name_variant": nm})
     # TWO outputs requested at once (a printed one and a file): both must be right, and if either cannot be produced the status is non-zero
     for prog, valid in progs[:8]:
         for ok in ("-pP", "-pO", "-bP", "-pbO"):
@@ -301,6 +307,18 @@ def run(tier):
             args += [ok]
         elif ok == "-usage":
             args += ["-p"] + j["bad_args"]
+        if j.get("name_variant"):
+            nv = j["name_variant"]
+            sub = {"long": os.path.join("a" * 100, "b" * 100, "n" * 70), "blank": os.path.join("dir with blanks", "my out"), "percent": "out%s%n%d-100%",
+                   "utf8": os.path.join("d\u00e9j\u00e0", "\u4e2d\u6587-out"), "dotslash": os.path.join(".", "x", ".", "out"), "long-component": "c" * 240}[nv]
+            base = os.path.join(d, sub)
+            os.makedirs(os.path.dirname(base), exist_ok=True)
+            if ok == "-o":
+                outfile = base + ".bin"
+                args = [asmline] + list(j["flags"]) + ["-o", base]
+            else:
+                outfile = base + ".raw"
+                args = [asmline] + list(j["flags"]) + ["-P", outfile]
         if j.get("argv_override"):
             # another spelling of the same command line (the flags of j["flags"] are part of the override)
             if ok in ("-P", "-c"):
@@ -561,7 +579,7 @@ def run(tier):
                 stats["valgrind_runs"] += 1
                 v.distinct(("vg", how, LEN))
     v.cov["rule"] = ("asmline (tools/asmline.c built with ASan+UBSan from the working tree) vs the library driven through the corresponding documented option calls: seeded programs (valid, with option-sensitive probe lines, "
-                     "with one invalid line, executable ones returning values up to 2^64-1, empty / blank / comment-only programs, programs of 100-3000 (thorough: 6000) lines) x every mode flag and non-conflicting flag pairs x outputs {-p, -P file, -P /dev/stdout, -o, -c N (binary), -p -c N, -b N, -p -b N, a printed and a file output together (-p -P, -p -o, -b -P, -p -b -o), -r, -r=0/2/3/100, --return[=5], unwritable -P, printed outputs to a full / closed standard output; 21 spellings of the number given to -c / -b (huge, fractional, trailing characters, hex, signs, blanks); chunk sizes 4..10^6; options before or after FILE, 29 other spellings of the command line (long options, '=' forms, unique abbreviations, bundled short options, '--')} x {FILE, stdin, stdin delivered in pieces of 1 / 7 / 40 / 4096 bytes}. "
+                     "with one invalid line, executable ones returning values up to 2^64-1, empty / blank / comment-only programs, programs of 100-3000 (thorough: 6000) lines) x every mode flag and non-conflicting flag pairs x outputs {-p, -P file, -P /dev/stdout, -o, -c N (binary), -p -c N, -b N, -p -b N, a printed and a file output together (-p -P, -p -o, -b -P, -p -b -o), -r, -r=0/2/3/100, --return[=5], unwritable -P, printed outputs to a full / closed standard output; 21 spellings of the number given to -c / -b (huge, fractional, trailing characters, hex, signs, blanks); chunk sizes 4..10^6; options before or after FILE, output names of 272 characters / with blanks, UTF-8, '%'; 29 other spellings of the command line (long options, '=' forms, unique abbreviations, bundled short options, '--')} x {FILE, stdin, stdin delivered in pieces of 1 / 7 / 40 / 4096 bytes}. "
                      "-r / -r=LEN / --return=LEN / --rand additionally under valgrind memcheck with programs that touch the last element of all six arrays. Binary outputs must equal the library bytes, -p the hex rows per instruction (chunk rows with -c), -b the library count, -r the value the code returns; exit status 0 iff assembly and output succeeded")
     v.cov["exhaustive"] = False
     v.cov.update(stats)
